@@ -26,6 +26,9 @@ CLAIMS = {
  "C10": dict(cat="other", tech="static analysis: abstract interpretation of every write_into / read_from pair (recording writer, replaying reader over symbolic values); comparison of the rebuilt symbolic value with the original",
    text="For every Serializable/Deserializable pair of the workspace (230 Instruction variants, 233 opcodes, advice injectors, nodes, procedure/program/module ASTs under both serde options, imports, library paths/namespaces/versions, procedure names/ids, source locations, kernels, program info, stack inputs/outputs, public inputs, hash function tags, execution proofs) the writer is interpreted on a symbolic instance of each enum variant and the reader on the recorded token stream: widths, tags, order, counts, left-over tokens and the rebuilt value are compared. Immediates are symbolic, so agreement holds for every immediate value; collection lengths are representative.",
    note="Trusted: " + TB + "; mirsym and the serde model (winter-utils ByteReader/ByteWriter modelled per method; label/path validators abstract). MaslLibrary is not covered (path arithmetic on symbolic strings). Equality of recompiled MAST roots is not decided.", ref="§3 C10"),
+ "C19": dict(cat="other", tech="static analysis: abstract interpretation of every reader over a fully symbolic byte stream with path forking (panic reachability with constant-propagation feasibility), construction-site (who-may-construct) rule, parameter-provenance rule for validity checks",
+   text="Every Deserializable::read_from (and the inherent ProgramAst/ModuleAst readers) is interpreted with a ByteReader whose every read returns a fresh symbolic value; all syntactic paths are enumerated and a path reaching panic!/unreachable!/expect/unwrap, or a compiler-inserted bounds/overflow check whose condition depends on input bytes, is reported unless constant propagation shows the path contradictory (ledger: one site, with reason). Accepted values re-encode (symbolic round trip of the untrusted-input types). Types with validating constructors (StackOutputs, StackInputs, Kernel, LibraryPath, ProcedureName, LibraryNamespace, ExecutionOptions) are built only in their constructors/Default/Clone, have no public fields, and their readers go through the constructor. StackOutputs::new passes every integer parameter to find_invalid_elements (which compares with the modulus) before construction; try_from_values / with_stack_values convert only with Felt::try_from.",
+   note="Trusted: " + TB + "; mirsym, serde model; winter-utils and miden-crypto readers (external) are trusted. Loops over input-sized collections are explored for one iteration; allocations sized by input are listed in the evidence, not judged.", ref="§3 C19"),
 }
 
 NA = {
